@@ -80,3 +80,75 @@ Theorem C13_schema_layout_invariant_plain_json : forall optd w1 v w2 w1' v' w2' 
   E2E.e2e_validate optd (w1' ++ Json.Grammar.render v' ++ w2') d.
 Proof. exact E2EProofs.e2e_layout_invariant. Qed.
 Print Assumptions C13_schema_layout_invariant_plain_json.
+
+(* schema half, user comments: the gaps of a plain-JSON schema text may hold blanks, line comments
+   ('#', a body without line break that does not begin with '#', then LF, CR or CRLF) and block comments
+   ('###' ... '###', line breaks allowed inside) in EVERY gap position of the grammar (before and after the
+   root value, after '{' and '[', between a key and its colon, between the colon and the value, after a
+   value before ',' '}' ']', inside empty '{ }' and '[ ]'); the last gap may also end inside a line comment
+   (no final line break), never inside a block comment or after '##' (ErrUnexpectedEOF).  Whatever stands
+   in the comments, the loader builds the tree of the value: comments are transparent.
+     LoaderProofs.is_gap / is_gap_end : the gap machine (is_gap_end: the last gap);
+     LoaderProofs.wfg is_gap v       : Json.Grammar.wf with is_gap in place of all_blank;
+   no condition on the tokens is needed ('#', '/', '@' may occur inside strings).
+   Proofs in SchemaScan/LoaderProofs.v and Schema/E2EProofs.v. *)
+Theorem C13_schema_comments_are_transparent : forall w1 v w2,
+  LoaderProofs.is_gap w1 = true -> LoaderProofs.wfg LoaderProofs.is_gap v = true ->
+  LoaderProofs.is_gap_end w2 = true ->
+  LoaderProofs.no_exponent v = true -> LoaderProofs.distinct_keys v = true ->
+  Loader.load (w1 ++ Json.Grammar.render v ++ w2) = Loader.LTree (Some (LoaderProofs.mirror v)).
+Proof. exact LoaderProofs.load_mirrors_json_with_comments. Qed.
+Print Assumptions C13_schema_comments_are_transparent.
+
+(* user comments do not change the verdict of any document: a commented layout and a comment-free layout
+   of the same value (same mirror image) give the same result of the whole pipeline *)
+Theorem C13_comments_do_not_change_verdicts : forall optd w1 v w2 w1' v' w2' d,
+  LoaderProofs.is_gap w1 = true -> LoaderProofs.wfg LoaderProofs.is_gap v = true ->
+  LoaderProofs.is_gap_end w2 = true ->
+  LoaderProofs.no_exponent v = true -> LoaderProofs.distinct_keys v = true ->
+  Json.Grammar.all_blank w1' = true -> Json.Grammar.wf v' = true -> Json.Grammar.all_blank w2' = true ->
+  LoaderProofs.no_exponent v' = true -> LoaderProofs.distinct_keys v' = true ->
+  LoaderProofs.mirror v = LoaderProofs.mirror v' ->
+  E2E.e2e_validate optd (w1 ++ Json.Grammar.render v ++ w2) d =
+  E2E.e2e_validate optd (w1' ++ Json.Grammar.render v' ++ w2') d.
+Proof. exact E2EProofs.e2e_comments_do_not_change_verdicts. Qed.
+Print Assumptions C13_comments_do_not_change_verdicts.
+
+(* the same between two commented layouts, and the verdict itself *)
+Theorem C13_comments_invariant : forall optd w1 v w2 w1' v' w2' d,
+  LoaderProofs.is_gap w1 = true -> LoaderProofs.wfg LoaderProofs.is_gap v = true ->
+  LoaderProofs.is_gap_end w2 = true ->
+  LoaderProofs.no_exponent v = true -> LoaderProofs.distinct_keys v = true ->
+  LoaderProofs.is_gap w1' = true -> LoaderProofs.wfg LoaderProofs.is_gap v' = true ->
+  LoaderProofs.is_gap_end w2' = true ->
+  LoaderProofs.no_exponent v' = true -> LoaderProofs.distinct_keys v' = true ->
+  LoaderProofs.mirror v = LoaderProofs.mirror v' ->
+  E2E.e2e_validate optd (w1 ++ Json.Grammar.render v ++ w2) d =
+  E2E.e2e_validate optd (w1' ++ Json.Grammar.render v' ++ w2') d.
+Proof. exact E2EProofs.e2e_comments_invariant. Qed.
+Print Assumptions C13_comments_invariant.
+
+(* non-vacuity: a value of three levels with a gap holding a blank, a line comment (with '#', '/', '@'
+   in it), a block comment over two lines and a CRLF in EVERY gap position; the last gap ends inside a
+   line comment.  The text satisfies the hypotheses and the loader returns the mirror of the value, the
+   same tree as for the comment-free text *)
+Definition c13_gap : Wire.bytes :=
+  [x20; x23; x20; x63; x23; x2f; x40; x0a; x23; x23; x23; x20; x61; x0a; x62; x20; x23; x23; x20; x23; x23; x23; x0d; x0a; x23; x0d].
+Definition c13_value (c : Wire.bytes) : Json.Grammar.jv :=
+  Json.Grammar.JObj
+    [(c, [x22; x6b; x22], c, c,
+      Json.Grammar.JArr
+        [(c, Json.Grammar.JObj [(c, [x22; x7a; x22], c, c, Json.Grammar.JTok [x6e; x75; x6c; x6c], c)], c);
+         (c, Json.Grammar.JObj0 c, c); (c, Json.Grammar.JArr0 c, c); (c, Json.Grammar.JTok [x31; x32], c)], c)].
+Example C13_comments_in_every_gap :
+  LoaderProofs.is_gap c13_gap = true /\
+  LoaderProofs.wfg LoaderProofs.is_gap (c13_value c13_gap) = true /\
+  LoaderProofs.is_gap_end (c13_gap ++ [x23; x20; x65; x6e; x64]) = true /\
+  Loader.load (c13_gap ++ Json.Grammar.render (c13_value c13_gap) ++ c13_gap ++ [x23; x20; x65; x6e; x64]) =
+    Loader.LTree (Some (LoaderProofs.mirror (c13_value c13_gap))) /\
+  Loader.load (Json.Grammar.render (c13_value [])) = Loader.LTree (Some (LoaderProofs.mirror (c13_value c13_gap))) /\
+  (* a gap may not end inside a block comment, nor after ## *)
+  LoaderProofs.is_gap_end [x23; x23; x23; x20; x61] = false /\
+  Loader.load ([x31; x20; x23; x23; x23; x20; x61]) = Loader.LError 303 6 /\
+  Loader.load ([x31; x20; x23; x23]) = Loader.LError 303 3.
+Proof. vm_compute. repeat split; reflexivity. Qed.
